@@ -17,7 +17,7 @@ mutual
   def directArgVarsSel : Sel → List String
     | .field _ _ args _ _ argDefs sub =>
       args.filterMap (fun a => match a.value with
-        | .var n => if (argDefs.find? (·.name == a.name)).isSome then some n else none
+        | .var n _ => if (argDefs.find? (·.name == a.name)).isSome then some n else none
         | _ => none) ++ directArgVars sub
     | .inline _ _ _ _ sub => directArgVars sub
     | .spread .. => []
@@ -54,69 +54,46 @@ theorem hasKey_setStr_mono {k : String} (k2 v2 : String) {m : List (String × St
       · exact ⟨w, by simp [h1, h2]⟩
       · obtain ⟨w', hw'⟩ := ih ⟨w, hw⟩; exact ⟨w', by simp [hw']⟩
 
-theorem childVarTypes_mono (schema : Schema) (ad : ArgDef) (v : Value) {k : String}
-    {acc : List (String × String)} (h : hasKey k acc) : hasKey k (childVarTypes schema ad v acc) := by
-  unfold childVarTypes
-  split
-  · -- list
-    rename_i vs
-    generalize (match ad.type with | .list t => t.toString | .nonNull (.list t) => t.toString | t => t.toString) = elemT
-    induction vs generalizing acc with
-    | nil => simpa using h
-    | cons x xs ih =>
-      simp only [List.foldl_cons]
-      apply ih
-      split
-      · exact hasKey_setStr_mono _ _ h
-      · exact h
-  · rename_i fs
-    split
-    · exact h
-    · rename_i td _
-      induction fs generalizing acc with
-      | nil => simpa using h
-      | cons x xs ih =>
-        simp only [List.foldl_cons]
-        apply ih
-        split
-        · exact hasKey_setStr_mono _ _ h
-        · exact h
-  · exact h
+mutual
+  theorem childVarTypes_mono {k : String} : ∀ (v : Value) {acc : List (String × String)},
+      hasKey k acc → hasKey k (childVarTypes v acc)
+    | .var n et, _, h => by rw [childVarTypes]; exact hasKey_setStr_mono _ _ h
+    | .list vs, _, h => by rw [childVarTypes]; exact childVarTypesL_mono vs h
+    | .object fs, _, h => by rw [childVarTypes]; exact childVarTypesO_mono fs h
+    | .int _, _, h => by simpa [childVarTypes] using h
+    | .float _, _, h => by simpa [childVarTypes] using h
+    | .str _, _, h => by simpa [childVarTypes] using h
+    | .bool _, _, h => by simpa [childVarTypes] using h
+    | .null, _, h => by simpa [childVarTypes] using h
+    | .enum _, _, h => by simpa [childVarTypes] using h
+  theorem childVarTypesL_mono {k : String} : ∀ (vs : List Value) {acc : List (String × String)},
+      hasKey k acc → hasKey k (childVarTypesL vs acc)
+    | [], _, h => by rw [childVarTypesL]; exact h
+    | v :: vs, _, h => by rw [childVarTypesL]; exact childVarTypesL_mono vs (childVarTypes_mono v h)
+  theorem childVarTypesO_mono {k : String} : ∀ (fs : List (String × Value)) {acc : List (String × String)},
+      hasKey k acc → hasKey k (childVarTypesO fs acc)
+    | [], _, h => by rw [childVarTypesO]; exact h
+    | (_, v) :: fs, _, h => by rw [childVarTypesO]; exact childVarTypesO_mono fs (childVarTypes_mono v h)
+end
 
-/-- the per-argument step of `walkArgsSel` never forgets a declared variable -/
+/-- the per-argument step never forgets a declared variable -/
 theorem argStep_mono (schema : Schema) (argDefs : List ArgDef) (a : Arg) {k : String}
-    {acc : List (String × String)} (h : hasKey k acc) :
-    hasKey k (match argDefs.find? (·.name == a.name) with
-      | none => acc
-      | some ad =>
-        match a.value with
-        | .var n => setStr n ad.type.toString acc
-        | .list (x :: xs) => if (schema.type? ad.type.name).isSome then childVarTypes schema ad (.list (x :: xs)) acc else acc
-        | .object (x :: xs) => if (schema.type? ad.type.name).isSome then childVarTypes schema ad (.object (x :: xs)) acc else acc
-        | _ => acc) := by
+    {acc : List (String × String)} (h : hasKey k acc) : hasKey k (argVarTypes schema argDefs acc a) := by
+  unfold argVarTypes
   split
   · exact h
   · split
     · exact hasKey_setStr_mono _ _ h
     · split
-      · exact childVarTypes_mono _ _ _ h
+      · exact childVarTypesL_mono _ h
       · exact h
     · split
-      · exact childVarTypes_mono _ _ _ h
+      · exact childVarTypesO_mono _ h
       · exact h
     · exact h
 
 theorem argsFold_mono (schema : Schema) (argDefs : List ArgDef) (args : List Arg) {k : String} :
-    ∀ {acc : List (String × String)}, hasKey k acc →
-    hasKey k (args.foldl (fun acc a =>
-        match argDefs.find? (·.name == a.name) with
-        | none => acc
-        | some ad =>
-          match a.value with
-          | .var n => setStr n ad.type.toString acc
-          | .list (x :: xs) => if (schema.type? ad.type.name).isSome then childVarTypes schema ad (.list (x :: xs)) acc else acc
-          | .object (x :: xs) => if (schema.type? ad.type.name).isSome then childVarTypes schema ad (.object (x :: xs)) acc else acc
-          | _ => acc) acc) := by
+    ∀ {acc : List (String × String)}, hasKey k acc → hasKey k (args.foldl (argVarTypes schema argDefs) acc) := by
   induction args with
   | nil => intro acc h; simpa using h
   | cons a as ih =>
@@ -126,18 +103,9 @@ theorem argsFold_mono (schema : Schema) (argDefs : List ArgDef) (args : List Arg
 
 theorem argsFold_declares (schema : Schema) (argDefs : List ArgDef) (args : List Arg) (n : String)
     (hn : n ∈ args.filterMap (fun a => match a.value with
-        | .var n => if (argDefs.find? (·.name == a.name)).isSome then some n else none
+        | .var n _ => if (argDefs.find? (·.name == a.name)).isSome then some n else none
         | _ => none)) :
-    ∀ (acc : List (String × String)),
-    hasKey n (args.foldl (fun acc a =>
-        match argDefs.find? (·.name == a.name) with
-        | none => acc
-        | some ad =>
-          match a.value with
-          | .var n => setStr n ad.type.toString acc
-          | .list (x :: xs) => if (schema.type? ad.type.name).isSome then childVarTypes schema ad (.list (x :: xs)) acc else acc
-          | .object (x :: xs) => if (schema.type? ad.type.name).isSome then childVarTypes schema ad (.object (x :: xs)) acc else acc
-          | _ => acc) acc) := by
+    ∀ (acc : List (String × String)), hasKey n (args.foldl (argVarTypes schema argDefs) acc) := by
   induction args with
   | nil => simp at hn
   | cons a as ih =>
@@ -145,19 +113,18 @@ theorem argsFold_declares (schema : Schema) (argDefs : List ArgDef) (args : List
     simp only [List.foldl_cons]
     simp only [List.filterMap_cons] at hn
     cases hv : a.value with
-    | var m =>
+    | var m et =>
       simp only [hv] at hn
       cases hf : argDefs.find? (·.name == a.name) with
       | none =>
         simp only [hf, Option.isSome_none, Bool.false_eq_true, ↓reduceIte] at hn
-        have := ih hn acc
-        simpa [hf, hv] using this
+        exact ih hn _
       | some ad =>
         simp only [hf, Option.isSome_some, ↓reduceIte, List.mem_cons] at hn
         rcases hn with hn | hn
         · subst hn
           apply argsFold_mono
-          simp only [hf, hv]
+          simp only [argVarTypes, hf, hv]
           exact hasKey_setStr_self _ _ _
         · exact ih hn _
     | _ =>
@@ -253,7 +220,7 @@ mutual
       · left
         refine ⟨a, ha, ?_⟩
         cases hval : a.value with
-        | var m =>
+        | var m et =>
           simp only [hval] at hv
           split at hv
           · simp only [Option.some.injEq] at hv; subst hv; simp [argRaws, hval, Value.raw]
